@@ -169,7 +169,7 @@ def judge (x : String) (cfg : NsCfg) (t v : String) : String :=
         | [.func sa sr], .func a r => if funcItemTestArg tables sa sr a r then "T" else "F"
         | _, _ => match convertArg tables xsd11 ty val with
           | .ok _ => "T" | .error .XPDY0050 => "F" | .error e => showRes (.error e)
-      s!"match={showRes m} inst={showRes i} treat={tr} spec={sp} fd={b01 (trigF18d ty val)} fi={b01 (trigF18i ty val)} dom={b01 (domT ty val)} fp={b01 ty.parserGap} fk={b01 ty.hasTypeArg} fn={b01 (ty0.trigF18n cfg)} param={pr} fpp={b01 (ty.gapAt false false true)}"
+      s!"match={showRes m} inst={showRes i} treat={tr} spec={sp} fd={b01 (trigF18d ty val)} fi={b01 (trigF18i ty val)} dom={b01 (domT ty val)} fp={b01 ty.parserGap} fk={b01 ty.hasTypeArg} param={pr} fpp={b01 (ty.gapAt false false true)}"
   | _, _ => "bad-judgement"
 
 open EPV.Gen.C18 in
